@@ -228,5 +228,31 @@ impl State {
 
 //@use corewords.fns State::load_core#w_slice
 
+// ---- str>number (D26)
+impl vstd::std_specs::convert::FromSpecImpl<i128> for Cell {
+    open spec fn obeys_from_spec() -> bool { true }
+    open spec fn from_spec(x: i128) -> Cell { Cell::Int(x) }
+}
+impl From<i128> for Cell {
+//@use cell.fns "impl From<i128> for Cell"::from
+}
+// FmtFlags (src/fmt_flags.rs, verified in unit cell): its base is the low byte of the raw value
+#[verifier::external_body] pub struct FmtFlags { _p: u8 }
+impl FmtFlags {
+    #[verifier::external_body] pub fn base(&self) -> (r: usize) ensures r <= 0xff { unimplemented!() }
+}
+impl Default for FmtFlags { #[verifier::external_body] fn default() -> FmtFlags { unimplemented!() } }
+impl State {
+    #[verifier::external_body] pub fn parse_fmt_flags(&self, val: &Cell) -> Option<FmtFlags> { unimplemented!() }
+}
+// ASSUMED std / arcstr: `find(char)`, `str::parse::<f64>`, `i128::from_str_radix` (panics for a radix outside 2..=36), `substr(..)`
+#[verifier::external_body] fn verif_str_has_dot(s: &Xstr) -> bool { unimplemented!() }
+#[verifier::external_body] fn verif_str_parse_real(s: &Xstr) -> Result<f64, ()> { unimplemented!() }
+#[verifier::external_body] fn verif_str_parse_int(s: &Xstr, radix: u32) -> Result<i128, ()>
+    requires 2 <= radix <= 36
+{ unimplemented!() }
+#[verifier::external_body] fn verif_substr_all(s: &Xstr) -> Xsubstr { unimplemented!() }
+//@use coll.fns ::core_word_str_to_num
+
 } // verus!
 fn main() {}
